@@ -258,6 +258,18 @@ func renderMpcl(mc *mpCase) string {
 			helpers[st] = fmt.Sprintf("type %s struct {\n\tf1 %s\n\tf2 %s\n}\n", st, t1, t2)
 			n := def(rType{s: st, f1: t1, f2: t2})
 			fmt.Fprintf(&body, "\tvar %s %s\n\t%s.f1 = %s\n\t%s.f2 = %s\n", n, st, n, x, n, y)
+		case "mklf":
+			st := types[s.X-1]
+			ft := st.f1
+			if s.Y == 2 {
+				ft = st.f2
+			}
+			n := def(rType{s: ft})
+			fmt.Fprintf(&body, "\t%st := %s{f1: %d, f2: %d}\n\t%s := %st.f%d\n", n, st.s, s.Z, s.C, n, n, s.Y)
+		case "mkl":
+			st := types[s.X-1]
+			n := def(st)
+			fmt.Fprintf(&body, "\t%s := %s{f1: %d, f2: %d}\n", n, st.s, s.Z, s.C)
 		case "fld":
 			st := types[s.X-1]
 			x := name(s.X)
